@@ -34,6 +34,7 @@ type Sub struct {
 // World is one PKI + log key + instance.
 type World struct {
 	Root, I1, I2, P *pki.Node
+	PFull           *pki.Node // pre-issuer whose authority key identifier carries issuer name and serial too
 	Subs            map[string]*Sub
 	Env             *ctfeenv.Env
 	Base            time.Time
@@ -42,7 +43,7 @@ type World struct {
 
 // Shapes a submission can take.
 var x509Shapes = []string{"I1-noroot", "I2-I1-root", "I1-root-ed25519", "I2-I1-noroot-rsa", "I1-root-p384"}
-var preShapes = []string{"I1-direct-noroot", "P-I1-root", "P-I1-noroot-rsa", "I2-direct-root"}
+var preShapes = []string{"I1-direct-noroot", "P-I1-root", "P-I1-noroot-rsa", "I2-direct-root", "Pfull-I1-root"}
 
 // NewWorld builds hierarchy, submissions for the given ids and an instance.
 func NewWorld(dir string, ids []string, pre map[string]bool, logKeyType string, rng *mrand.Rand, opts ctfeenv.Opts) (*World, error) {
@@ -51,6 +52,7 @@ func NewWorld(dir string, ids []string, pre map[string]bool, logKeyType string, 
 	w.I1 = w.Root.Issue(pki.Opts{CN: "I1", IsCA: true})
 	w.I2 = w.I1.Issue(pki.Opts{CN: "I2", IsCA: true, KeyType: "rsa2048"})
 	w.P = w.I1.Issue(pki.Opts{CN: "P pre-issuer", IsCA: true, OtherEKUs: pki.OIDEKUCTs()})
+	w.PFull = w.I1.Issue(pki.Opts{CN: "P pre-issuer full AKI", IsCA: true, OtherEKUs: pki.OIDEKUCTs(), FullAKID: true})
 	for n, id := range ids {
 		s := &Sub{ID: id, Pre: pre[id]}
 		var leaf *pki.Node
@@ -69,6 +71,8 @@ func NewWorld(dir string, ids []string, pre map[string]bool, logKeyType string, 
 				leaf, s.PreIssuer = w.P.Issue(o), true
 			case "I2-direct-root":
 				leaf, withRoot = w.I2.Issue(o), true
+			case "Pfull-I1-root":
+				leaf, withRoot, s.PreIssuer = w.PFull.Issue(o), true, true
 			}
 		} else {
 			s.Shape = x509Shapes[(n+rng.Intn(len(x509Shapes)))%len(x509Shapes)]
